@@ -2,7 +2,7 @@
 from symx.run import Query
 from symx.lib import *  # noqa
 from scoda.elements.bar import Bar
-from props.c20 import TONIC
+from props.c20 import TONIC  # noqa
 
 META = {
     "bounds": {
@@ -129,6 +129,57 @@ def q_bar(key, nrange):
                   "bar_seq_key_defined", "bar_seq_key_transposed"], desc=f"Bar.transpose(n), bar key {key}")
 
 
+def q_keys_only(key, nrange):
+    """a sequence / bar that carries a key signature but no notes"""
+    def fn(ctx):
+        n = ctx.int("n", *nrange)
+        seq = rel_sequence([ks(KEYS[key]), wait(ctx.int("w", 1, 24))])
+        shifted = seq.transpose(n)
+        er, dr = rel_events(raw_rel(seq))
+        ksout = [e for e in er if e.kind == KS]
+        ok = len(ksout) == 1 and isinstance(ksout[0].m.key, Key)
+        ctx.must("key_defined", ok)
+        if ok:
+            ctx.must("key_transposed", eq((TONIC[KEYS[key].value] + n) % 12, TONIC[ksout[0].m.key.value]))
+        ctx.must("return_value", shifted is False)
+        bar = Bar(rel_sequence([ks(KEYS[key]), wait(12)]), 3, 4, KEYS[key])
+        bar.transpose(n)
+        eb, _ = rel_events(raw_rel(bar.sequence))
+        kb = [e for e in eb if e.kind == KS]
+        okb = len(kb) == 1 and isinstance(kb[0].m.key, Key) and isinstance(bar.key_signature, Key)
+        ctx.must("bar_key_defined", okb)
+        if okb:
+            ctx.must("bar_seq_key_transposed", and_(eq((TONIC[KEYS[key].value] + n) % 12, TONIC[kb[0].m.key.value]),
+                                                    TONIC[kb[0].m.key.value] == TONIC[bar.key_signature.value]))
+        return [str(ksout[0].m.key) if ksout else None]
+    return Query(f"keys_only/key{key}/n{nrange[0]}..{nrange[1]}", fn, ["key_defined", "key_transposed", "return_value", "bar_key_defined",
+                                                                        "bar_seq_key_transposed"], desc="key signature without notes")
+
+
+def q_raw_events(nrange):
+    """no octave wrap: every event keeps its tick, velocity and order, whatever the input looks like (also overlapping
+    notes of one pitch and an unclosed note): transposition must not tidy the sequence up"""
+    def fn(ctx):
+        spec = [("ON", 0), "W", ("ON", 1), "W", ("OFF", 0), "W", ("OFF", 1), ("ON", 2), "W"]
+        b = build_rel(ctx, spec, pitch=(60, 61), chan=(0, 0), wait=(1, 12))
+        n = ctx.int("n", *nrange)
+        seq = rel_sequence(b.msgs)
+        shifted = seq.transpose(n)
+        exp = []
+        for e in b.all_events:
+            m = e.m.copy()
+            m.note = m.note + n
+            exp.append(Ev(e.t, m))
+        er, dr = rel_events(raw_rel(seq))
+        ea, da = abs_events(raw_abs(seq))
+        ctx.must("return_value", shifted is False)
+        ctx.must("events_untouched_when_not_wrapped", and_(events_eq_positionwise(er, exp), eq(dr, b.total),
+                                                           events_eq_multiset_timed(ea, exp)))
+        return [obs_events(er, dr)]
+    return Query(f"raw_events/n{nrange[0]}..{nrange[1]}", fn, ["return_value", "events_untouched_when_not_wrapped"],
+                 desc="no wrap on input with overlapping same-pitch notes and an unclosed note")
+
+
 N1 = [("ON", 0), "W", ("OFF", 0), "W"]
 N2 = ["W", ("ON", 0), "W", ("ON", 1), "W", ("OFF", 0), "W", ("OFF", 1)]
 N2S = [("ON", 0), "W", ("OFF", 0), ("ON", 1), "W", ("OFF", 1)]
@@ -150,6 +201,9 @@ def queries(tier, seed):
     qs.append(q_seq("n1", N1, (59, 61), (-13, 13), key=(seed + 5) % 15, fresh="both"))
     # two notes, wraps allowed: one pitch mid-range, one within 3 of a limit; waits concrete (the re-quantisation
     # after a wrap forks on every duration value)
+    qs.append(q_raw_events((-30, 30)))
+    for k in sorted({(seed + 3) % 15, 12, 14}):
+        qs.append(q_keys_only(k, (-13, 13)))
     qs.append(q_seq("n2", N2, (LO, HI), (-15, 15), wait=(12, 12), near=[1], mid=[0]))
     qs.append(q_seq("n2s", N2S, (LO, HI), (-13, 13), wait=(12, 12), near=[0, 1]))
     if tier == "thorough":
